@@ -170,7 +170,7 @@ def hy_end_line(form):
     return max((n.line for n in form.walk()), default=form.line)
 
 
-def hy_small_edit(hyfile, line):
+def hy_small_edit(hyfile, line, loose=False):
     rev = reviewed().get(hyfile.rel)
     if rev is None:
         return False, f"{hyfile.rel} is not a file of the reviewed tree"
@@ -193,6 +193,6 @@ def hy_small_edit(hyfile, line):
         sm = difflib.SequenceMatcher(a=want, b=got, autojunk=False)
         same = sum(b.size for b in sm.get_matching_blocks())
         ch = (len(want) - same) + (len(got) - same)
-        if not (ch <= HY_SMALL or (ch <= HY_MID and ch <= 0.3 * len(want))):
+        if not (ch <= HY_SMALL or (ch <= HY_MID and ch <= 0.3 * len(want)) or (loose and (ch <= HY_MID or ch <= 0.6 * len(want)))):
             return False, f"`{k}`: {ch} of {len(want)} reviewed tokens changed"
     return True, "as reviewed or nearly so"
